@@ -19,9 +19,26 @@ var namedBehaviours = [][]op{
 	{{Op: "wh", C: 500}},
 	{{Op: "wh", C: 404}, {Op: "wh", C: 500}, {Op: "w"}},
 	{{Op: "w"}, {Op: "wh", C: 500}},
+	// status classes (LogMw!ClassBehNames)
+	{{Op: "wh", C: 101}},
+	{{Op: "wh", C: 103}},
+	{{Op: "wh", C: 103}, {Op: "wh", C: 200}, {Op: "w"}},
+	{{Op: "wh", C: 204}},
+	{{Op: "wh", C: 304}},
+	{{Op: "wh", C: 599}, {Op: "w"}},
+	{{Op: "wh", C: 999}},
 }
 
-var someCodes = []int{200, 201, 204, 301, 400, 403, 404, 418, 500, 503}
+// loopbackBehaviours are the ones a real net/http server and client carry
+// without special handling (no 101: the connection would be hijacked; no
+// body with 204/304; 999 is not a status a client accepts).
+var loopbackBehaviours = [][]op{
+	namedBehaviours[0], namedBehaviours[1], namedBehaviours[2], namedBehaviours[3], namedBehaviours[4],
+	namedBehaviours[5], namedBehaviours[6], namedBehaviours[9], namedBehaviours[10], namedBehaviours[11],
+	namedBehaviours[12],
+}
+
+var someCodes = []int{100, 101, 103, 200, 201, 204, 301, 304, 400, 403, 404, 418, 500, 503, 599, 999}
 
 func randomOps(rnd *rand.Rand) []op {
 	if rnd.IntN(10) < 6 {
